@@ -557,7 +557,7 @@ class Evaluator:
         if is_for:
             ia = it.single_atom()
             if ia is not None and ia[0] in ("tuple", "list") and 1 <= len(ia[1]) <= (12 if _cheap_body(s) else 2) and not any(
-                    isinstance(n, ast.Return) or (isinstance(n, (ast.For, ast.While)) and n is not s) for n in ast.walk(s)):
+                    (isinstance(n, (ast.For, ast.While)) and n is not s) for n in ast.walk(s)):
                 fr.loop_n -= 1
                 return self._unrolled(s, ia[1], st)
         # discover what the body may write (fixpoint, silent)
@@ -638,9 +638,11 @@ class Evaluator:
             self.assign(s.target, x, st, s, quiet=True)
             flags = {"break": False, "unroll": mark, "conts": [], "brks": [], "base": base}
             self._loop_flags.append(flags)
-            end = self.exec_block(s.body, st)
+            end = self.exec_block(s.body, st, keep=True)
             self._loop_flags.pop()
-            del self.pc[mark:]
+            if flags["conts"] or flags["brks"] or end is None:
+                del self.pc[mark:]
+            # otherwise what an early `return` inside the copy left on the path (its negated condition) stays for the copies that follow
             for cnd, cst in flags["conts"]:
                 end = cst if end is None else State(self._merge_maps(cnd, cst.attrs, end.attrs), self._merge_locs(cnd, cst.locs, end.locs))
             for cnd, bst, local in flags["brks"]:
@@ -1789,6 +1791,10 @@ class Evaluator:
                     return self._inline(tgt, not tgt.is_static, args, kwargs, st, node, ("self", tgt.qualname))
             if a[0] == "global":
                 return self._call_dotted(a[1], args, kwargs, st, node)
+            if a[0] == "getattr" and isinstance(a[2], str):
+                # m = obj.method (or getattr(obj, "method")); m(...)  is  obj.method(...)
+                fake = ast.copy_location(ast.Attribute(value=ast.Constant(value=None), attr=a[2], ctx=ast.Load()), node)
+                return self._method_call(a[1], fake, list(args), dict(kwargs), st, node)
             if a[0] == "lambda" and a[1] == "identity" and len(args) == 1:
                 return args[0]
             if a[0] == "lambda" and a[1] in self._lambdas and not kwargs:
